@@ -240,6 +240,9 @@ var c11Positions = []struct{ name, tpl string }{
 	{"filter-userfunc-int", `<p>{{ v | add(1) }}</p>`},
 	{"filter-userfunc-arg", `<p>{{ one | add(v) }}</p>`},
 	{"filter-file", `<p>{{ v | file }}</p>`},
+	{"nest-130", strings.Repeat("<div>", 130) + "x" + strings.Repeat("</div>", 130)},
+	{"nest-260", strings.Repeat("<section><i>", 130) + "x" + strings.Repeat("</i></section>", 130)},
+	{"nest-500", strings.Repeat("<b>", 500) + "x" + strings.Repeat("</b>", 500)},
 	{"userfunc-pipe-longdate", `<p>{{ v | longdate }}</p>`},
 	{"userfunc-call-longdate", `<p>{{ longdate(v) }}</p>`},
 	{"userfunc-attr-longdate", `<p :title="longdate(v)" v-if="longdate(v)">c</p><p v-text="v | longdate"></p>`},
